@@ -42,6 +42,10 @@ type worldCfg struct {
 	ImportRewrite map[string]string `json:"import_rewrite"`
 	// wrap the Transport of every net/http.Client literal in simrt.HTTPTransport (simulated authority)
 	HTTPClientHook bool `json:"http_client_hook"`
+	// add a run-unique sub-millisecond amount to the duration of every timer and ticker created by the
+	// instrumented packages, so that no two of them share a deadline (the order in which the Go runtime
+	// fires timers with equal deadlines is not decided by the simulation)
+	TimerJitter bool `json:"timer_jitter"`
 }
 
 const simrtPath = "github.com/bluenviron/mediamtx/internal/zzsim/simrt"
@@ -796,6 +800,12 @@ func (fi *fileInst) call(c *ast.CallExpr) {
 	// package-level functions
 	if id, ok := sel.X.(*ast.Ident); ok {
 		if pn, ok2 := fi.info.Uses[id].(*types.PkgName); ok2 {
+			if fi.cfg.TimerJitter && pn.Imported().Path() == "time" && len(c.Args) >= 1 &&
+				(sel.Sel.Name == "NewTimer" || sel.Sel.Name == "NewTicker" || sel.Sel.Name == "After" || sel.Sel.Name == "AfterFunc") {
+				fi.insert(c.Args[0].Pos(), "zzsimrt.Jitter(")
+				fi.insertAfter(c.Args[0].End(), ")")
+				fi.nsites++
+			}
 			if pn.Imported().Path() == "time" && sel.Sel.Name == "Sleep" {
 				st, inHeader := fi.listStmt()
 				if st == nil || inHeader {
